@@ -259,3 +259,19 @@ reg("C11", "c11",
     "bugs with a local ref and agrees with the rebuilt cache on every facet.",
     "Content equality is judged against the rebuilt cache (same code): a defect common to both paths is not visible here (C10, C01 "
     "cover the content). bleve trusted.", "DESIGN.md section 4, C11")
+
+reg("C06", "c06",
+    "TLA+ spec Crash.tla model-checked by TLC; fault enumeration of every crash point of every write path in dying child "
+    "processes; records validated by TLC",
+    "Crash.tla states what a write path must look like (all objects before the single ref update; clock files only replaced "
+    "atomically) and what must be found after a crash at point k (old or new state decided by the ref update alone, repository "
+    "opens, every entity readable and valid, clocks usable and not behind any stored time, repeating the call completes it). TLC "
+    "checks every path of the commit / merge grammar x every crash point, and a witness run shows that in-place clock writes are "
+    "reported unsafe. The harness runs nine scenarios (new bug with one / several authors, edit, new and mutated identity, pull of "
+    "a new bug, fast-forward pull, pull with merge commit, plain read) once to record the real mutation sequence (git objects and "
+    "refs through a decorator of repository.ClockedRepo, clock-file operations through the verif local-storage hook) and then once "
+    "per crash point in a child process that exits at that mutation (after an O_TRUNC open took effect; in the middle of a "
+    "write); the parent re-opens with clock loaders, reads everything, repeats the call if needed, and TLC accepts the records "
+    "only if all of the above holds at every point.",
+    "go-git's object / ref writes and fetch are trusted atomic. 113+ crash points; identity and bug paths; entity API level.",
+    "DESIGN.md section 4, C06")
